@@ -3,6 +3,7 @@ package pcache
 import (
 	"encoding/json"
 	"fmt"
+	"math"
 	"os"
 	"path/filepath"
 	"strconv"
@@ -36,6 +37,7 @@ var genWorkload = rapid.Custom(func(t *rapid.T) Workload {
 	}
 	if rapid.IntRange(0, 4).Draw(t, "sequential") == 0 {
 		w.G = [][]WOp{genSequential(t, &w)}
+		drawBigWorkload(t, &w, 0)
 		return w
 	}
 	ng := rapid.IntRange(2, 4).Draw(t, "ng")
@@ -68,18 +70,55 @@ var genWorkload = rapid.Custom(func(t *rapid.T) Workload {
 		}
 		w.G = append(w.G, ops)
 	}
+	drawBigWorkload(t, &w, nkeys)
 	return w
 })
 
-// genSequential draws the calls of a workload with ONE goroutine: no two calls
-// overlap, so the linearizability check admits exactly one order and compares
-// every result with the reference LRU.  The calls fill the cache to its limit
-// (4 or 5 entries of size 1, so the recency heap has >= 4 slots), Remove one
-// of the older entries (the heap moves its last entry into the hole), Get one
-// of the others at once and then Put fresh keys until everything that was
-// there has been evicted; random calls may precede and follow.  All sizes are
-// 1: with more keys than the limit a zero-size value would let the cache grow
-// beyond 5 entries.
+// drawBigWorkload is drawn last (the other workloads stay what they were): for
+// about one workload in six the limit and the sizes become huge numbers (see
+// Workload.BigLimit).  The Puts have S <= 3, i.e. values of at most 3*Unit+2.
+// Goroutine schedules cannot be steered, so Unit is constructed such that in
+// EVERY schedule the sums the cache forms stay inside int64 (beyond that the
+// documentation promises nothing):
+//
+//	roomy     nkeys * (3*Unit+2) <= limit: everything fits at once, no Put ever
+//	          evicts another key, every sum is <= limit.  With limits near
+//	          MaxInt64 this is the only possibility.
+//	evicting  Unit = limit/Limit (the cache holds Limit units, as without
+//	          BigLimit), provided that limit + 3*Unit+2 <= MaxInt64: the
+//	          present entries are never more than the limit.
+//
+// nkeys == 0: a sequential workload (genSequential: 2*Limit+1 keys, all S = 1).
+// It has to stay at <= Limit entries (known finding F2), so only "evicting"
+// with Unit = limit/Limit exactly will do, and the limit is taken from those
+// that leave room for limit + Unit + 2.
+func drawBigWorkload(t *rapid.T, w *Workload, nkeys int) {
+	if !vk.Rare(t, "big", 6) {
+		return
+	}
+	if w.Elem == elem.Str {
+		w.Elem = elem.Ptr
+	}
+	if nkeys == 0 {
+		l := rapid.SampledFrom([]int64{1<<62 + 1, 1 << 62, 3 << 61, 1<<62 - 1, 5 << 60, 1<<53 + 1, 1<<32 + 1, 1 << 61, 1 << 53, 1 << 32, 1 << 31}).Draw(t, "bigSeqLimit")
+		w.BigLimit, w.Unit = l, l/int64(w.Limit)
+		return
+	}
+	l := rapid.SampledFrom(bigLimits).Draw(t, "bigLimit")
+	switch rapid.IntRange(0, 5).Draw(t, "bigLimitKind") {
+	case 0:
+		l = rapid.Int64Range(1<<31, math.MaxInt64).Draw(t, "bigLimitAny")
+	case 1:
+		l -= rapid.Int64Range(0, 3).Draw(t, "bigLimitBelow")
+	}
+	roomy := l/(int64(nkeys)*3) - 1
+	evicting := min(l/int64(w.Limit), (math.MaxInt64-l-2)/3)
+	w.BigLimit, w.Unit = l, roomy
+	if evicting >= roomy && rapid.IntRange(0, 2).Draw(t, "bigEvicting") > 0 {
+		w.Unit = evicting
+	}
+}
+
 func genSequential(t *rapid.T, w *Workload) []WOp {
 	w.Limit = rapid.IntRange(4, 5).Draw(t, "seqLimit")
 	nkeys := 2*w.Limit + 1
@@ -307,6 +346,9 @@ func TestC09Conc(t *testing.T) {
 		tl.Classes["store="+kindName(w.Store, "LRU")]++
 		if len(w.G) == 1 {
 			tl.Classes["sequential_workload(one goroutine)"]++
+		}
+		if w.BigLimit != 0 {
+			tl.Classes["big_limit_"+bigClass(w.BigLimit)]++
 		}
 	}
 	if unknown > 0 {
